@@ -67,6 +67,12 @@ var answerShapes = []struct{ name, tmpl string }{
 func srvreq(rep *vh.Reporter, kind kit.Kind) {
 	in := kit.Start(kind, kit.Opts{})
 	kit.StdFixture(in)
+	registerAskTools(in)
+	srvreqRun(rep, kind, in)
+}
+
+// registerAskTools registers the two tools that issue a request to the peer from inside a tool call.
+func registerAskTools(in *kit.Instance) {
 	for _, name := range []string{"askroots", "askraw"} {
 		name := name
 		in.RegisterTool(mcp.NewTool(name, mcp.WithString("nonce")), func(ctx context.Context, req *mcp.CallToolRequest) (*mcp.CallToolResult, error) {
@@ -116,6 +122,9 @@ func srvreq(rep *vh.Reporter, kind kit.Kind) {
 			return mcp.NewTextResult("ok: " + string(b)), nil
 		})
 	}
+}
+
+func srvreqRun(rep *vh.Reporter, kind kit.Kind, in *kit.Instance) {
 	ctx := context.Background()
 	dial := func() *kit.RawConn {
 		c, err := in.Dial(ctx)
